@@ -41,15 +41,21 @@ def addStatement (accepted : Bool) (old afterOld res args heldOld heldAfter : Li
     of the transcript -/
 def dropped (kind : String) : Bool := kind == "A" || kind == "Z"
 
+/-- `O` and `M`: an assignment to a feature of the location chain (the transcript's own `Orient` /
+    `Offset`, the gene's, a contig's …) between two operations — not an update of the exon set -/
+def chainChange (kind : String) : Bool := kind == "O" || kind == "M"
+
 /-- the exons the transcript must show after an accepted operation: the ones given to `SetExons`
     (`S`: the arguments; `R`: the previous set plus the arguments); after an `Add` whose result is
-    dropped, the set accepted last, i.e. the previous one -/
+    dropped and after a change of the location chain, the set accepted last, i.e. the previous one -/
 def givenExons (kind : String) (args prev : List Exon) : List Exon :=
-  if kind == "R" then prev ++ args else if dropped kind then prev else args
+  if kind == "R" then prev ++ args else if dropped kind || chainChange kind then prev else args
 
 /-- Operation kinds: `S` = `SetExons(args)`, `A` = `t.Exons().Add(args)` with the result dropped,
     `R` = `Add` then `SetExons` of the result, `Z` = `t.Exons()[:j].Add(args)` with the result
-    dropped (the reset idiom for `j = 0`).  `prev` is the exon set the transcript showed
+    dropped (the reset idiom for `j = 0`), `O` / `M` = the orientation / the start of a feature of the
+    location chain was assigned (`node`, `loc` are the chain as it is *now*, after the operation; such
+    an operation is never rejected).  `prev` is the exon set the transcript showed
     before the operation, `es`/`is` the exons and introns it shows now, `tstart, tend, tlen` its
     `Start/End/Len`, `utr` the pieces `(UTR5, CDS, UTR3)` if all three are defined, `sh` the
     rendering of `UTR5start,UTR5end,UTR3start,UTR3end`.
@@ -73,7 +79,9 @@ def txClauses (coding : Bool) (node : Node) (loc : Chain) (cdsStart cdsEnd : Int
     (acc && !(es.all (·.loc == 1)), "accepted-exons-not-on-the-transcript"),
     (acc && decide (startOf es ≠ 0), "accepted-exons-do-not-start-at-zero"),
     (acc && !(es.isPerm (givenExons kind args prev)),
-      if dropped kind then "dropped-Add-changed-the-accepted-exon-set" else "accepted-exons-are-not-the-given-ones"),
+      if dropped kind then "dropped-Add-changed-the-accepted-exon-set"
+      else if chainChange kind then "change-of-the-location-chain-changed-the-exon-set"
+      else "accepted-exons-are-not-the-given-ones"),
     (!(alternate es is), "exons-and-introns-do-not-alternate"),
     (!(intronsFit es is), "intron-is-not-the-gap-between-exons"),
     (nonNeg es && !(tiles 0 tlen (interleave es is)), "exons-and-introns-do-not-tile-the-transcript"),
